@@ -476,6 +476,72 @@ static void c14_sequence(const struct vh_buf* items, size_t k) {
   vb_free(&d); vb_free(&cat);
 }
 
+/* a long CBOR sequence: k small items back to back (tens of thousands, the running offset crossing 2^16), split by repeated
+ * cbor_load at the advancing offset; descriptor 'Q', u32 seed, u32 k */
+static void c14_long(uint32_t seed, uint32_t k) {
+  uint8_t desc[9] = {'Q'};
+  for (int i = 0; i < 4; i++) { desc[1 + i] = (uint8_t)(seed >> (24 - 8 * i)); desc[5 + i] = (uint8_t)(k >> (24 - 8 * i)); }
+  if (!vh_case(desc, 9)) return;
+  struct vh_rng r;
+  vh_rng_seed(&r, 0x5e90000ull + seed);
+  static const char* const pool[] = {"00", "17", "1818", "190100", "20", "3903e7", "40", "4161", "60", "62c3a9", "80", "8101", "a0", "a10102", "9fff", "5f4100ff", "7fff", "c100", "d81840", "f4", "f6", "f7", "f93c00", "fa3fc00000",
+                                     "fb3ff0000000000000", "826161a10203", "bf01f5ff", "d9d9f700", "1a00010000", "1b0000000100000000", "58180102030405060708090a0b0c0d0e0f101112131415161718", "9f9f9fffffff"};
+  const size_t np = sizeof pool / sizeof pool[0];
+  struct vh_buf cat = {0};
+  uint32_t* lens = malloc(k * sizeof *lens);
+  uint8_t* which = malloc(k);
+  for (uint32_t i = 0; i < k; i++) {
+    size_t pi = vh_below(&r, np);
+    which[i] = (uint8_t)pi;
+    const char* h = pool[pi];
+    lens[i] = (uint32_t)(strlen(h) / 2);
+    for (; *h; h += 2) { unsigned v; sscanf(h, "%2x", &v); vb_u8(&cat, (uint8_t)v); }
+  }
+  /* each pool item decoded alone: the expected dumps */
+  struct vh_buf alone[32];
+  memset(alone, 0, sizeof alone);
+  for (size_t pi = 0; pi < np; pi++) {
+    uint8_t b[64]; size_t n = strlen(pool[pi]) / 2;
+    for (size_t q = 0; q < n; q++) { unsigned v; sscanf(pool[pi] + 2 * q, "%2x", &v); b[q] = (uint8_t)v; }
+    uint8_t* ex = vh_exact(b, n);
+    struct cbor_load_result lr;
+    cbor_item_t* it = cbor_load(ex, n, &lr);
+    if (!it || lr.read != n) vh_die("c14_long: pool item %s does not decode alone", pool[pi]);
+    walk_dump_item(it, &alone[pi], 0);
+    cbor_decref(&it);
+    free(ex);
+  }
+  uint8_t* buf = vh_exact(cat.p, cat.n);
+  size_t off = 0;
+  uint32_t i = 0;
+  for (; i < k; i++) {
+    if (off >= cat.n) { vh_violation("sequence-ended-early", "buffer exhausted after %u of %u items", i, k); break; }
+    struct cbor_load_result lr;
+    memset(&lr, 0, sizeof lr);
+    cbor_item_t* it = cbor_load(buf + off, cat.n - off, &lr);
+    if (!it) { vh_violation("sequence-item-rejected", "item %u of %u at offset %zu (%zu bytes remaining) failed with %s at %zu", i, k, off, cat.n - off, code_name((int)lr.error.code), lr.error.position); break; }
+    if (lr.read != lens[i]) { vh_violation("sequence-read-differs", "item %u at offset %zu: read=%zu in the sequence, %u alone", i, off, lr.read, lens[i]); cbor_decref(&it); break; }
+    if ((i & 7) == 0 || off >> 16 != (off + lr.read) >> 16) {
+      struct vh_buf dd = {0};
+      walk_dump_item(it, &dd, 0);
+      if (dd.n != alone[which[i]].n || memcmp(dd.p, alone[which[i]].p, dd.n)) vh_violation("sequence-item-differs", "item %u at offset %zu decoded from the sequence differs from the item decoded alone", i, off);
+      vb_free(&dd);
+    }
+    cbor_decref(&it);
+    off += lr.read;
+  }
+  if (i == k && off != cat.n) vh_violation("sequence-not-at-end", "splitting %u items stopped at %zu of %zu bytes", k, off, cat.n);
+  free(buf);
+  for (size_t pi = 0; pi < np; pi++) vb_free(&alone[pi]);
+  free(lens); free(which);
+  if (ta_live_count()) { vh_violation("leak", "%zu block(s) left", ta_live_count()); ta_forget_all(); }
+  VH_COUNT("long_sequences", 1);
+  VH_MAX("max_items_in_one_sequence", k);
+  VH_MAX("max_sequence_bytes", cat.n);
+  vb_free(&cat);
+  vh_nontrivial(vh_hash(desc, 9));
+}
+
 /* ------------------------------------------------------------ dispatching */
 static void run_input(const uint8_t* p, size_t n) {
   if (!vh_case(p, n)) return;
@@ -489,6 +555,7 @@ static void gianterr_case(int which);
 static void load_exec(const uint8_t* d, size_t n) {
   if (!strcmp(O.stage, "gianterr") && n == 2 && d[0] == 'Z') { gianterr_case(d[1]); return; }
   if (!strcmp(O.stage, "hugebuf") && n >= 9 && d[0] == 'H') { size_t c = 0; for (int i = 0; i < 8; i++) c = c << 8 | d[1 + i]; hugebuf_case(d + 9, n - 9, c); return; }
+  if (P == 14 && n == 9 && d[0] == 'Q') { c14_long((uint32_t)d[1] << 24 | (uint32_t)d[2] << 16 | (uint32_t)d[3] << 8 | d[4], (uint32_t)d[5] << 24 | (uint32_t)d[6] << 16 | (uint32_t)d[7] << 8 | d[8]); return; }
   if (P == 14) {
     if (n >= 3 && d[0] == 0xff && d[1] == 0xff) {
       size_t k = d[2], off = 3;
@@ -770,6 +837,9 @@ static void stage_seq(void) {
     c14_sequence(seq, k);
     for (size_t i = 0; i < k; i++) vb_free(&seq[i]);
   }
+  /* long sequences */
+  { static const uint32_t ks[] = {300, 5000, 70000, 200000};
+    for (uint32_t q = 0; q < 16; q++) if ((int)(q % (uint32_t)O.nshards) == O.shard) c14_long(q + (uint32_t)O.seed * 16, ks[q % 4]); }
   /* small exhaustive layer: every x of <= 2 bytes and every alphabet string of length 3..4,
    * followed by every single byte (x that do not decode alone are skipped by the checker) */
   if (O.shard == 0 || O.nshards > 1) {
